@@ -44,6 +44,7 @@ fn main() {
     let mut dbops: Vec<api::DbOp> = vec![];
     let mut moves = "nnpnppnnnpnpp".to_string();
     let mut raw_bytes: Vec<Vec<u8>> = vec![];
+    let mut blooms: Vec<(usize, Vec<Vec<u8>>)> = vec![];
     let mut encodes: Vec<(u64, Vec<(Vec<u8>, Option<Vec<u8>>)>)> = vec![];
     for l in &lines {
         let t: Vec<&str> = l.split_whitespace().collect();
@@ -74,6 +75,7 @@ fn main() {
             "entry" => entries.push((unhex(t[1]), t[2].parse().unwrap(), t[3].parse().unwrap(), unhex(t[4]))),
             "lookup" => lookups.push((unhex(t[1]), t[2].parse().unwrap())),
             "block_size" => block_size = t[1].parse().unwrap(),
+            "bloom" => blooms.push((t[1].parse().unwrap(), t[2..].iter().map(|x| unhex(x)).collect())),
             "bytes" => raw_bytes.push(unhex(t[1])),
             "encode" => encodes.push((t[1].parse().unwrap(), t[2..].chunks(2).map(|c| (unhex(c[0]), if c[1] == "!" { None } else { Some(unhex(c[1])) })).collect())),
             "moves" => moves = t[1].to_string(),
@@ -216,6 +218,23 @@ fn main() {
             }
             if bad.is_empty() { println!("REPLAY holds oracle=db_views views={}", views.len()); }
             else { println!("REPLAY violated oracle=db_views {}", bad.join("; ")); }
+        }
+        // public BloomFilterPolicy: every key a filter was created from may match (C14, first sentence)
+        "bloom" => {
+            use raindb::FilterPolicy;
+            let mut bad = vec![];
+            for (bits, keys) in &blooms {
+                let policy = raindb::BloomFilterPolicy::new(*bits);
+                let filter = policy.create_filter(keys);
+                for k in keys {
+                    match policy.key_may_match(k, &filter) {
+                        Ok(true) => {}
+                        other => bad.push(format!("bits_per_key={} keys={} key {} answered {:?}", bits, keys.len(), hex(k), other.map_err(|e| format!("{}", e)))),
+                    }
+                }
+            }
+            if bad.is_empty() { println!("REPLAY holds oracle=bloom filters={}", blooms.len()); }
+            else { println!("REPLAY violated oracle=bloom {}", bad.join("; ")); }
         }
         // real Batch::try_from / Vec::from(&Batch) vs a reference codec of the documented layout
         // (fixed64 sequence, varint32 count, elements: op byte, length-prefixed key, [length-prefixed value])
